@@ -388,7 +388,10 @@ class Contract:
             return set()
         params = set(_i.signature(raw_fn).parameters)
         cases = self.cases()
-        return {k for k in cases[0] if k not in params} if cases else set()
+        out = set()
+        for cs in cases:  # the cases of a contract may have different ghost inputs (families of 1, 2, 3 operands)
+            out |= {k for k in cs if k not in params}
+        return out
 
     def labelled_ensures(self):
         out = []
